@@ -52,3 +52,10 @@ static void ref_init_all(REF_TP_T *tp)
     ref_init_task_P.taskpool = (parsec_taskpool_t *)tp; derived_P_internal_init(NULL, &ref_init_task_P);
     ref_init_task_Q.taskpool = (parsec_taskpool_t *)tp; derived_Q_internal_init(NULL, &ref_init_task_Q);
 }
+
+/* make_key of class c: direct calls (no function pointer read from a table indexed symbolically) */
+static parsec_key_t ref_make_key(const REF_TP_T *tp, int c, const parsec_assignment_t *l)
+{
+    if (c == 0) return __jdf2c_make_key_P((const parsec_taskpool_t *)tp, l);
+    (void)c; return __jdf2c_make_key_Q((const parsec_taskpool_t *)tp, l);
+}
